@@ -3,6 +3,7 @@ use crate::util::*;
 use coap_lite::{CoapOption, Packet};
 use serde_json::{json, Value};
 use std::collections::LinkedList;
+use std::convert::TryFrom;
 
 fn opts_eq(a: &Value, b: &Value) -> bool {
     a == b
@@ -312,6 +313,13 @@ fn apply_call(p: &mut Packet, c: &Value) {
         }
         "clear_option" => p.clear_option(CoapOption::from(a["num"].as_u64().unwrap() as u16)),
         "clear_all_options" => p.clear_all_options(),
+        "replace_header" => {
+            // a whole new header (from raw bytes) whose token-length nibble matches the stored token
+            let b = (a["b"].as_u64().unwrap() as u8 & 0xF0) | p.get_token().len() as u8;
+            let mid = a["mid"].as_u64().unwrap() as u16;
+            let raw = coap_lite::HeaderRaw::try_from(&[b, a["code"].as_u64().unwrap() as u8, (mid >> 8) as u8, mid as u8][..]).unwrap();
+            p.header = coap_lite::Header::from_raw(&raw);
+        }
         other => tool_error(&format!("unknown builder call {}", other)),
     }
 }
@@ -348,7 +356,14 @@ fn random_call(r: &mut Rng) -> Value {
             let vs: Vec<Value> = (0..k).map(|_| { let n = r.below(15) as usize; jbytes(&r.bytes(n)) }).collect();
             jcall("set_option", json!({"num": num, "vs": vs}))
         }
-        11 | 12 => jcall("clear_option", json!({"num": num})),
+        11 => jcall("clear_option", json!({"num": num})),
+        12 => {
+            if r.chance(1, 2) {
+                jcall("clear_option", json!({"num": num}))
+            } else {
+                jcall("replace_header", json!({"b": (r.below(16) as u8) << 4, "code": *r.pick(&[0u8, 1, 0x45, 0xFF]), "mid": r.next() as u16}))
+            }
+        }
         _ => jcall("clear_all_options", json!({})),
     }
 }
